@@ -314,6 +314,61 @@ def check_reduction_caller():
     return viols
 
 
+TOKENLIST_EXPRS = ['_1 + 1', '[_1, _2, 3.][0] ** 2', '_ * __', 'a_1 + _1a', '1.5e3 + 2', "'_1' + \"x\"", 'x1 - _9_', 'max(_1, 2.)']
+
+
+def check_tokenlist_caller():
+    """The list of names the parser publishes per equation (EquationParser.Tokens): exactly the name tokens in order."""
+    viols = []
+    for expr in TOKENLIST_EXPRS:
+        case = {'kind': 'tokenlist-caller', 'expr': expr}
+        p = EquationParser()
+        try:
+            p.ParseString('y = %s\n_1 = 2.\n_2 = 3.\nMaxTime = 1' % expr)
+            p.GenerateTokenList()
+        except Exception as e:
+            viols.append(core.violation('tokenlist-caller-raises:' + type(e).__name__, 'GenerateTokenList on %r raised %r' % (expr, e), case))
+            continue
+        want = [t for t in scan(expr) if NAME_RE.match(t)]
+        got = [t for t in p.Tokens.get('y', []) if NAME_RE.match(t)]
+        if got != want:
+            viols.append(core.violation('caller:parser-token-list-wrong', 'Tokens[y] for %r lists the names %r, expected %r' % (expr, got, want), case))
+    return viols
+
+
+def check_model_alias_caller():
+    """Placeholders in model-level strings (Model._ReplaceAliasesInString, named by the property's callers through the alias fix-up):
+    every placeholder occurrence is replaced whatever stands next to it, nothing else changes."""
+    from sfc_models.models import Model, Country
+    from sfc_models.sector import Sector
+    viols = []
+    m = Model()
+    c = Country(m, 'CO')
+    a = Sector(c, 'AA', has_F=False)
+    b = Sector(c, 'BB', has_F=False)
+    a.AddVariable('X', 'x', '1.')
+    b.AddVariable('Y', 'y', '2.')
+    ax, by = a.GetVariableName('X'), b.GetVariableName('Y')
+    forms = ['2*{0}', 'max({0},{1})', '[{0}, {1}, 1e5][1]', '{0}**2', '({0} + 1)*{1}', '{0} + {1}', '"{0}" + str({0})', '{0}{0}x + {1}']
+    for i, f in enumerate(forms):
+        m.AddGlobalEquation('G%d' % i, 'model-level equation', f.format(ax, by))
+    try:
+        m._GenerateFullSectorCodes()
+        m._FixAliases()
+        rows = dict((r[0], r[1]) for r in m.GlobalVariables)
+    except Exception as e:
+        return [core.violation('model-alias-caller-raises:' + type(e).__name__, 'alias fix-up raised %r' % (e,), {'kind': 'model-alias-caller', 'form': forms[0]})]
+    for i, f in enumerate(forms):
+        case = {'kind': 'model-alias-caller', 'form': f}
+        text = f.format(ax, by)
+        got = scan(rows.get('G%d' % i, ''))
+        want = expected_tokens(scan(text), {ax: 'AA__X', by: 'BB__Y'})
+        if got != want:
+            viols.append(core.violation('caller:model-alias:' + classify(scan(text), {ax: 'AA__X', by: 'BB__Y'}, got, want),
+                                        '%r becomes %r, expected tokens %r' % (text, got, want), case))
+    return viols
+
+
 def check_qualification_caller():
     """Local -> full qualification of sector equations (named by the property as a caller): exactly the sector's OWN
     local names are qualified; a bare name that is not a variable of that sector (a model-level variable, a function)
@@ -399,6 +454,12 @@ def run_unit(unit, tier):
         res['nontrivial'] += len(REDUCTION_EXPRS)
         core.bump(res['outcomes'], 'reduction-caller:' + ('ok' if not viols else 'violation'))
         res['violations'].extend(viols)
+        for fn, n, lab in ((check_tokenlist_caller, len(TOKENLIST_EXPRS), 'tokenlist-caller'), (check_model_alias_caller, 8, 'model-alias-caller')):
+            viols = fn()
+            res['evaluations'] += n
+            res['nontrivial'] += n
+            core.bump(res['outcomes'], lab + ':' + ('ok' if not viols else 'violation'))
+            res['violations'].extend(viols)
         viols = check_qualification_caller()
         res['evaluations'] += 4
         res['nontrivial'] += 4
@@ -443,6 +504,10 @@ def run_unit(unit, tier):
 def replay(case):
     if case['kind'] == 'qualification-caller':
         return [v for v in check_qualification_caller() if v['case']['row'] == case['row']][:1]
+    if case['kind'] == 'tokenlist-caller':
+        return [v for v in check_tokenlist_caller() if v['case']['expr'] == case['expr']][:1]
+    if case['kind'] == 'model-alias-caller':
+        return [v for v in check_model_alias_caller() if v['case']['form'] == case['form']][:1]
     if case['kind'] == 'reduction-caller':
         return [v for v in check_reduction_caller() if v['case']['expr'] == case['expr']][:1]
     if case['kind'] == 'callers':
